@@ -41,7 +41,7 @@ McNext == \E c \in McCmds(mw) :
                         ELSE IF c.op \in AuthOps
                           THEN IF c.op = "auth" /\ SecretOk(mw, c.u, c.s)
                                THEN (IF o.rc = "authok" /\ Quiet(o, mst.pr) THEN {c.u} ELSE {})
-                               ELSE (IF o.rc \in {"authbad", "usage"} /\ Quiet(o, mst.pr) THEN mU \cup {0} ELSE {})
+                               ELSE (IF o.rc # "authok" /\ Quiet(o, mst.pr) THEN mU \cup {0} ELSE {})
                         ELSE IF c.op \in HttpOps THEN (IF HttpOk(GT, mw, c, o, mst.pr) THEN mU ELSE {})
                         ELSE IF o.rc = "usage" /\ Quiet(o, mst.pr) THEN mU
                         ELSE {u \in mU : TelnetOk(GT[u], mw, c, o, mst.pr)}
